@@ -7,7 +7,8 @@ PATCH="$(realpath "$1")"; shift
 HERE="$(cd "$(dirname "$0")/.." && pwd)"
 SCR="$(mktemp -d /tmp/fimmut.XXXXXX)"
 rsync -a --exclude .git /repo/ "$SCR/repo/"
-if ! (cd "$SCR/repo" && patch -p1 -s < "$PATCH"); then echo "PATCH-FAILED $PATCH"; rm -rf "$SCR"; exit 3; fi
+# git apply: exact context (no fuzz) - a stale mutant must fail to apply instead of landing somewhere else
+if ! (cd "$SCR/repo" && git apply --whitespace=nowarn -p1 "$PATCH" 2>/dev/null); then echo "PATCH-FAILED $PATCH"; rm -rf "$SCR"; exit 3; fi
 rc_all=0
 for id in "$@"; do
   VERIF_REPO="$SCR/repo" "$HERE/check" "$id" --tier "${TIER:-quick}" --no-evidence ${CASES:+--cases $CASES} > "$SCR/out.$id" 2>&1
